@@ -219,7 +219,10 @@ Definition c08_step (max_retry : nat) (g : c08g) (i : nat) (s : tstep) : c08g + 
                     if c8_acc st then
                       (if fcbit_fcv f && negb (Bool.eqb (fcbit_fcb f) (negb (Z.land fc0 32 =? 0))) then None else Some 802)
                     else
-                      (if service_eqb sv sv0 && (fc =? fc0) then None else Some 803)
+                      (* a retransmission; a peripheral that is not live is probed without retries, so
+                         each unanswered probe may be followed by a first request *)
+                      (if service_eqb sv sv0 && ((fc =? fc0) || (c8_probe st && fcbit_eqb f FcbFirst))
+                       then None else Some 803)
                 end in
             match ok_bits with
             | Some code => inr code
@@ -515,6 +518,14 @@ Inductive lstate : Set := LOff | LOn | LCfg.
 Definition lstate_eqb (a b : lstate) : bool :=
   match a, b with LOff, LOff | LOn, LOn | LCfg, LCfg => true | _, _ => false end.
 
+(* configurations whose requests fit the frame format: the user respected the documented size limits *)
+Definition conf_within_limits (c : conf) : bool :=
+  Nat.leb 255 (cf_bufsize c) &&
+  forallb (fun p =>
+    (0 <=? pc_addr p) && (pc_addr p <=? 125) && Nat.leb (pc_in p) 244 && Nat.leb (pc_out p) 244 &&
+    match o_user_prm (pc_opts p) with Some u => Nat.leb (length u) 237 | None => true end &&
+    match o_config (pc_opts p) with Some u => Nat.leb (length u) 244 | None => true end) (cf_periphs c).
+
 (* the life-cycle automaton L *)
 Definition l_step (l : lstate) (ev : pevent) : option lstate :=
   match ev, l with
@@ -535,7 +546,8 @@ Record c14g : Set := mkC14g {
   g14_turns : list Z;                   (* addresses that had their turn in the current cycle, newest first *)
   g14_cur : option Z;                   (* address whose turn is in progress (unanswered request) *)
   g14_due : list Z;                     (* live peripherals at the start of the cycle that must get a turn *)
-  g14_sends : nat }.                    (* transmissions in the turn in progress *)
+  g14_sends : nat;                      (* transmissions in the turn in progress *)
+  g14_dirty : bool }.                   (* a peripheral was added during this cycle: its order is not judged *)
 
 Definition index_of_addr (hs : list (option handle)) (a : Z) : option nat :=
   (fix go (l : list (option handle)) :=
@@ -561,19 +573,32 @@ Definition due_after (c : conf) (obs : list (option pobs)) : list Z :=
 (* reason codes: 1401 call did not return; 1402 second turn in one cycle; 1403 turn out of slot order;
    1404 live peripheral without a turn in a completed cycle; 1405 event not accepted by the life-cycle automaton;
    1406 is_live / is_running inconsistent with the events; 1407 event for an unknown handle; 1408 more than
-   1+max_retry transmissions in one turn; 1409 request to an address that is not a configured peripheral *)
+   1+max_retry transmissions in one turn; 1409 request to an address that is not a configured peripheral;
+   1410 a callback panicked *)
 Definition c14_step (c : conf) (g : c14g) (i : nat) (s : tstep) : c14g + Z :=
   let max_retry := Z.to_nat (p_max_retry (cf_params c)) in
   match ts_out s with
   | OutHang => inr 1401
+  | OutPanic =>
+      (* a callback that panics does not end the turn either (only judged when the configuration
+         respects the frame size limits, and never for replies the FDL would not deliver) *)
+      if is_callback (ts_in s) && conf_within_limits c then inr 1410 else inl g
   | _ =>
     (* handles learnt from add() *)
     let hs := match ts_in s, ts_out s with
               | InAdd k, OutHandle h => set_nth (g14_handles g) k (Some h)
               | _, _ => g14_handles g
               end in
+    let dirty := match ts_in s with InAdd _ => true | _ => g14_dirty g end in
     (* 1. turns *)
     let r1 : (list Z * option Z * nat) + Z :=
+      if dirty then
+        match view_of s with
+        | VReq da _ _ _ => inl (g14_turns g, Some da, 1%nat)
+        | VReply _ _ => inl (g14_turns g, None, 0%nat)
+        | _ => inl (g14_turns g, g14_cur g, g14_sends g)
+        end
+      else
       match view_of s with
       | VReq da _ _ _ =>
           match index_of_addr hs da with
@@ -645,16 +670,16 @@ Definition c14_step (c : conf) (g : c14g) (i : nat) (s : tstep) : c14g + Z :=
             if negb consistent then inr 1406 else
             (* 4. a completed cycle gave every due peripheral its turn *)
             if step_cc s then
-              if forallb (fun a => existsb (Z.eqb a) turns2) (g14_due g)
-              then inl (mkC14g life hs [] None (due_after c (ts_obs s)) 0)
+              if dirty || forallb (fun a => existsb (Z.eqb a) turns2) (g14_due g)
+              then inl (mkC14g life hs [] None (due_after c (ts_obs s)) 0 false)
               else inr 1404
-            else inl (mkC14g life hs turns2 cur (g14_due g) sends)
+            else inl (mkC14g life hs turns2 cur (g14_due g) sends dirty)
         end
     end
   end.
 
 Definition c14_monitor (c : conf) (hs0 : list (option handle)) (l : list tstep) : verdict :=
-  run_monitor (c14_step c) (mkC14g [] hs0 [] None [] 0) 0 l.
+  run_monitor (c14_step c) (mkC14g [] hs0 [] None [] 0 false) 0 l.
 
 (* ------------------------------------------------------------------ C07: recovery in the fault-free tail *)
 
@@ -748,3 +773,41 @@ Definition c07_cycles_needed (c : conf) (l : list tstep) : option nat :=
           (sl', true, cycles', (if all_ok then worst else S cycles'), seen)
       end) l (c07_slaves0 c, false, 0%nat, 0%nat, false) in
   if seen then Some worst else None.
+
+(* ------------------------------------------------------------------ known finding F15 (C07)
+   The master sits in ValidateConfig as long as the peripheral reports "station not ready" without asking for
+   parameters.  If the master took a short confirmation the slave never sent (a single byte without
+   checksum) for the acknowledgement of Chk_Cfg, the slave is still in Wait_Cfg and says exactly that,
+   forever.  KnownClass on a transcript: some healthy peripheral that is not running at the end last
+   answered a diagnostics request with Station_Not_Ready set, Prm_Req clear and no fault bit. *)
+Definition f15_diag_signature (pdu : bytes) : bool :=
+  let f := diag_flags pdu in
+  has_flag f 2 && negb (has_flag f 256) && negb (has_flag f 4) && negb (has_flag f 64).
+
+(* last accepted diagnostics reply per address: true = carries the signature *)
+Definition f15_last_diag (l : list tstep) : list (Z * bool) :=
+  snd (fold_left (fun (acc : option (Z * service) * list (Z * bool)) (s : tstep) =>
+         let (pending, m) := acc in
+         match view_of s with
+         | VReq da sv _ _ => (Some (da, sv), m)
+         | VReply a t =>
+             match pending, t with
+             | Some (da, SvDiag), TData _ pdu =>
+                 if reply_accepted SvDiag t then (None, alist_set m da (f15_diag_signature pdu)) else (None, m)
+             | _, _ => (None, m)
+             end
+         | VTimeout _ | VAbandon => (None, m)
+         | _ => acc
+         end) l (None, [])).
+
+Definition c07_known_f15 (c : conf) (l : list tstep) : bool :=
+  let sl := fold_left (fun sl s => c07_slave_step sl (ts_in s)) l (c07_slaves0 c) in
+  let final_obs := ts_obs (last l (mkStep InClean false OutUnit None [] OpStop)) in
+  let lastd := f15_last_diag l in
+  (fix go (k : nat) (ps : list pconf) (os : list (option pobs)) : bool :=
+     match ps, os with
+     | p :: ps', Some o :: os' =>
+         (healthy c sl k && negb (ob_running o) && alist_get false lastd (pc_addr p)) || go (S k) ps' os'
+     | _ :: ps', None :: os' => go (S k) ps' os'
+     | _, _ => false
+     end) 0%nat (cf_periphs c) final_obs.
